@@ -236,4 +236,33 @@ def cursorTrace : Nat → List Ev → Nat
   | _, .rpass _ _ invs :: r => cursorTrace (cursorAfter invs) r
   | cur, _ :: r => cursorTrace cur r
 
+/-! ### vocabulary of the theorems about the reply -/
+
+def isBack : Ev → Bool
+  | .spass _ _ => true
+  | .dh _ _ => true
+  | .dd _ => true
+  | .dt => true
+  | _ => false
+
+/-- the response side of the trace: sender passes and downstream sender calls, in order -/
+def backPart (t : List Ev) : List Ev := t.filter isBack
+
+/-- the verdicts of all receiver-filter invocations of a trace, in order -/
+def recvVerdicts : List Ev → List Verdict
+  | [] => []
+  | .rpass _ _ invs :: r => invs.map (·.2) ++ recvVerdicts r
+  | _ :: r => recvVerdicts r
+
+/-- the downstream sender calls that deliver a response with the given data / trailers presence and status code -/
+def replyEvs (r : Resp) (code : Option Nat) : List Ev :=
+  .dh code (!r.data && !r.trailers) :: ((if r.data then [.dd (!r.trailers)] else []) ++ (if r.trailers then [.dt] else []))
+
+/-- some receiver filter answered the request itself (hijack / direct response) -/
+def answeredIn (t : List Ev) : Prop := ∃ v ∈ recvVerdicts t, v.act.answers = true
+
+/-- some receiver or sender filter returned the termination status -/
+def terminatedIn (t : List Ev) : Prop :=
+  (∃ v ∈ recvVerdicts t, v.status = .termination) ∨ (∃ st invs, Ev.spass st invs ∈ t ∧ ∃ iv ∈ invs, iv.2 = .termination)
+
 end MosnVerif.Model.FilterMachine
